@@ -9,7 +9,7 @@ func init() {
 		ID: "C04", Level: "exploration", Scenarios: []string{"dex"},
 		Oracles:    func(w *World) []Oracle { return []Oracle{newDexOracle(w, "C04")} },
 		Quick:      Budget{Runs: 320, MaxEvents: 150},
-		Thorough:   Budget{Runs: 4800, MaxEvents: 400},
+		Thorough:   Budget{Runs: 3200, MaxEvents: 300},
 		Essential:  []string{"c04.checked_with_pending_requests", "c04.checked_with_live_orders", "c04.checked_with_farmed_coins"},
 		BatchProbe: []string{"c04.checked_with_pending_requests", "c04.checked_with_live_orders", "c04.checked_with_queued_farmers", "c04.checked_with_active_farmers", "c04.supply_change_explained", "dex.block_with_requests"},
 		TweakCfg: func(r *Rng, cfg *Config) {
@@ -28,7 +28,7 @@ func init() {
 		ID: "C05", Level: "exploration", Scenarios: []string{"dex"},
 		Oracles:    func(w *World) []Oracle { return []Oracle{newDexOracle(w, "C05")} },
 		Quick:      Budget{Runs: 320, MaxEvents: 150},
-		Thorough:   Budget{Runs: 4800, MaxEvents: 400},
+		Thorough:   Budget{Runs: 3200, MaxEvents: 300},
 		Essential:  []string{"c05.batch_checked", "c05.order_checked"},
 		BatchProbe: []string{"c05.batch_checked", "c05.batch_user_vs_pool", "c05.batch_with_several_user_orders", "c05.order_with_several_fills", "c05.multi_price_batch", "c05.dust_positive", "c05.carried_buy_order_filled_again", "c05.carried_buy_fill_cut_by_offer_coin"},
 		TweakCfg: func(r *Rng, cfg *Config) {
@@ -45,7 +45,7 @@ func init() {
 		ID: "C06", Level: "exploration", Scenarios: []string{"dex"},
 		Oracles:    func(w *World) []Oracle { return []Oracle{newDexOracle(w, "C06")} },
 		Quick:      Budget{Runs: 320, MaxEvents: 150},
-		Thorough:   Budget{Runs: 4800, MaxEvents: 400},
+		Thorough:   Budget{Runs: 3200, MaxEvents: 300},
 		Essential:  []string{"c06.deposit_checked", "c06.withdraw_checked"},
 		BatchProbe: []string{"c06.pending_deposit_checked", "c06.pending_withdraw_checked", "c06.deposit_checked", "c06.withdraw_checked", "c06.deposit_checked_ranged", "c06.withdraw_checked_ranged", "c06.withdraw_checked_with_fee", "c06.deposit_partially_accepted", "c06.ranged_price_checked", "c06.immediate_deposit_checked", "c06.immediate_withdraw_checked", "c06.last_share_redeemed"},
 		TweakCfg: func(r *Rng, cfg *Config) {
@@ -62,7 +62,7 @@ func init() {
 		ID: "C07", Level: "exploration", Scenarios: []string{"dex"},
 		Oracles:    func(w *World) []Oracle { return []Oracle{newDexOracle(w, "C07")} },
 		Quick:      Budget{Runs: 320, MaxEvents: 150},
-		Thorough:   Budget{Runs: 4800, MaxEvents: 400},
+		Thorough:   Budget{Runs: 3200, MaxEvents: 300},
 		Essential:  []string{"c07.placement_checked", "c07.terminated_in_block"},
 		BatchProbe: []string{"c07.placement_checked", "c07.placement_with_fee_reserve", "c07.app_id_differs_from_pair_id", "c07.end.expired", "c07.end.completed", "c07.end.cancelled", "c07.end.partially_filled", "c07.end.mm", "c07.mm_cancel_with_live_orders", "c07.mm_replace_with_live_predecessors", "c07.cancel_of_older_batch_attempted", "c07.escrow_exact_with_live_orders", "c07.block_flows_checked"},
 		TweakCfg: func(r *Rng, cfg *Config) {
@@ -77,7 +77,7 @@ func init() {
 		ID: "C19", Level: "exploration", Scenarios: []string{"dex"},
 		Oracles:    func(w *World) []Oracle { return []Oracle{newDexOracle(w, "C19")} },
 		Quick:      Budget{Runs: 320, MaxEvents: 150},
-		Thorough:   Budget{Runs: 4800, MaxEvents: 400},
+		Thorough:   Budget{Runs: 3200, MaxEvents: 300},
 		Essential:  []string{"c19.epoch_checked"},
 		BatchProbe: []string{"c19.gauge_created", "c19.split_checked_with_remainder", "c19.epoch_checked", "c19.epoch_checked_with_remainder", "c19.epoch_paid_something", "c19.farmer_payout_checked", "c19.epoch_with_several_farmers", "c19.master_gauge_per_farmer_bound", "c19.master_gauge_with_several_farmers", "c19.custody_checked_with_active_gauges"},
 		TweakCfg: func(r *Rng, cfg *Config) {
